@@ -611,6 +611,9 @@ var solvers = []solverSpec{
 
 var solverSem = make(chan struct{}, 16)
 
+// wall-clock limit of a solver run = wallFactor x its CPU-time budget
+const wallFactor = 4
+
 var queryCache sync.Map // query text -> SolverResult
 
 // Solve races the portfolio on one query text (without set-logic / check-sat suffix added by caller).
@@ -624,7 +627,7 @@ func Solve(query string, timeoutS int, wantModel bool) SolverResult {
 	}
 	solverSem <- struct{}{}
 	defer func() { <-solverSem }()
-	ctx, cancel := context.WithTimeout(context.Background(), time.Duration(timeoutS+2)*time.Second)
+	ctx, cancel := context.WithTimeout(context.Background(), time.Duration(wallFactor*timeoutS+2)*time.Second)
 	defer cancel()
 	type res struct{ r SolverResult }
 	ch := make(chan SolverResult, len(solvers))
@@ -671,14 +674,27 @@ func runSolver(ctx context.Context, sp solverSpec, q string, timeoutS int) Solve
 	defer os.Remove(f.Name())
 	f.WriteString(q)
 	f.Close()
-	argv := sp.argv(f.Name(), timeoutS)
+	// The budget is CPU time (ulimit -t), so that a loaded machine does not turn a 20-second proof into a timeout;
+	// the wall-clock limit is wallFactor times larger and only a safety net.
+	argv := sp.argv(f.Name(), wallFactor*timeoutS)
 	start := time.Now()
-	cmd := exec.CommandContext(ctx, argv[0], argv[1:]...)
+	sh := append([]string{"-c", fmt.Sprintf("ulimit -t %d; exec \"$@\"", timeoutS+1), "sh"}, argv...)
+	cmd := exec.CommandContext(ctx, "/bin/sh", sh...)
 	var out bytes.Buffer
 	cmd.Stdout = &out
 	cmd.Stderr = &out
-	cmd.Run()
+	runErr := cmd.Run()
 	secs := time.Since(start).Seconds()
+	killedByLimit := false
+	if cmd.ProcessState != nil {
+		cpu := (cmd.ProcessState.UserTime() + cmd.ProcessState.SystemTime()).Seconds()
+		if cpu > 0 {
+			secs = cpu
+		}
+		if runErr != nil && cpu >= float64(timeoutS) {
+			killedByLimit = true
+		}
+	}
 	txt := out.String()
 	first := strings.TrimSpace(strings.SplitN(txt, "\n", 2)[0])
 	r := SolverResult{Solver: sp.name, Secs: secs, Raw: txt}
@@ -695,7 +711,7 @@ func runSolver(ctx context.Context, sp solverSpec, q string, timeoutS int) Solve
 	case "unknown":
 		r.Status = "unknown"
 	default:
-		if ctx.Err() != nil {
+		if ctx.Err() != nil || killedByLimit {
 			r.Status = "timeout"
 		} else if strings.Contains(txt, "timeout") || strings.Contains(txt, "interrupted") {
 			r.Status = "timeout"
@@ -711,7 +727,7 @@ func SolveEach(query string, timeoutS int) []SolverResult {
 	full := query + "\n(check-sat)\n"
 	solverSem <- struct{}{}
 	defer func() { <-solverSem }()
-	ctx, cancel := context.WithTimeout(context.Background(), time.Duration(timeoutS+2)*time.Second)
+	ctx, cancel := context.WithTimeout(context.Background(), time.Duration(wallFactor*timeoutS+2)*time.Second)
 	defer cancel()
 	var out []SolverResult
 	ch := make(chan SolverResult, len(solvers))
